@@ -46,18 +46,39 @@ def rule_open(m):
                                   'verifyStreamOpened before any other use of the stream, binary routines open with '
                                   'std::ios::binary, and verifyStreamOpened throws std::runtime_error exactly when '
                                   '!is_open()')
-    for tn, binary in ((WRITERS_TEXT, False), (WRITERS_BIN, True), (LOADER_TEXT, False), (LOADER_BIN, True)):
-        fs = io_functions(m, tn)
-        if not fs:
+    named = {WRITERS_TEXT: False, WRITERS_BIN: True, LOADER_TEXT: False, LOADER_BIN: True}
+    for tn in named:
+        if not io_functions(m, tn):
             res.broken('F-IO.OPEN: anchor vanished: no analysed instantiation of ' + tn)
-        for f in fs:
+    todo = []
+    for f in m.fns:
+        if not f.tname.startswith(IO) or f.is_lambda:
+            continue
+        sd, decl = _stream_var(f)
+        if sd is not None:
+            binary = named.get(f.tname)
+            if binary is None:
+                binary = 'Binary' in f.name
+            todo.append((f, binary))
+        elif f.tname in named:
+            # a documented routine without a stream of its own must hand its file name to one that opens it
+            tt0 = Terms(f)
+            fname0 = [('var', p) for ix, p in enumerate(f.params) if 'basic_string' in f.cptypes[ix]]
+            deleg = [n for n in f.nodes if n['k'] == 'CallExpr' and 'callee' in n and
+                     f.unit.decl(n['callee'])['tname'].startswith(IO) and fname0 and
+                     any(tt0.t(a) == fname0[0] for a in n['args'])]
+            res.sites += 1
+            if deleg:
+                res.ok(dict(function=f.display(), delegates_to=f.unit.decl(deleg[0]['callee'])['name']) if len(res.samples) < 6 else None,
+                       fn=f.display())
+            else:
+                res.fail(Finding('F-IO.OPEN', f.display(), 'stream', f.where(), 'no file stream is opened and the file name is not handed on'))
+    for f, binary in todo:
+        if True:
             res.sites += 1
             tt = Terms(f)
             sd, decl = _stream_var(f)
             disp = f.display()
-            if sd is None:
-                res.fail(Finding('F-IO.OPEN', disp, 'stream', f.where(), 'no file stream is opened'))
-                continue
             fname = [('var', p) for ix, p in enumerate(f.params) if f.pnames[ix] == 'fileName' or
                      'basic_string' in f.cptypes[ix]]
             init = tt.t(decl['c'][decl['decls'].index(sd)])
@@ -437,6 +458,18 @@ def rule_grow(m, which='both'):
                                 grown.add(v)
                             else:
                                 extra_guard = True
+            # growth through a helper whose whole body is the same guarded resize of its graph argument
+            for n in f.nodes:
+                if n['k'] != 'CallExpr' or 'callee' not in n:
+                    continue
+                g = f.unit.function_for_decl(n['callee'])
+                gh = _grow_helper(g) if g is not None else None
+                if gh is None:
+                    continue
+                a = n.get('args', [])
+                if tt.t(a[gh[0]]) == ('var', G) and not (f.region(n['i']) - f.region(adds[0]['i'])) and \
+                        f.can_reach_forward(n['i'], adds[0]['i']):
+                    grown.add(strip_cast(tt.t(a[gh[1]])))
             if grown != set(aa):
                 why = 'the graph is not grown to index + 1 under exactly `index >= getSize()` for both indices of the record ' \
                       'before the insertion' + (' (a growth step depends on a further condition, e.g. an else-branch of the '
@@ -449,6 +482,39 @@ def rule_grow(m, which='both'):
                    if len(res.samples) < 6 else None, fn=disp)
     res.require_sites(20 if which == 'both' else 10, 'loaders')
     return res
+
+
+def _grow_helper(g):
+    """(graph parameter index, vertex parameter index) when g's body is  if (v >= G.getSize()) G.resize(v + 1);  only"""
+    if g.is_lambda or len(g.params) != 2:
+        return None
+    tt = Terms(g)
+    calls = [n for n in g.nodes if n['k'] in ('CXXMemberCallExpr', 'CallExpr', 'CXXOperatorCallExpr', 'CXXConstructExpr')]
+    rs = [n for n in calls if n['k'] == 'CXXMemberCallExpr' and 'callee' in n and g.unit.decl(n['callee'])['name'] == 'resize']
+    gs = [n for n in calls if n['k'] == 'CXXMemberCallExpr' and 'callee' in n and g.unit.decl(n['callee'])['name'] == 'getSize']
+    if len(rs) != 1 or len(gs) != 1 or len(calls) != 2:
+        return None
+    if any(n['k'] in ('BinaryOperator', 'CompoundAssignOperator') and n.get('op', '').endswith('=') and n['op'] not in ('>=', '<=', '==', '!=')
+           for n in g.nodes) or any(n['k'] in ('ForStmt', 'WhileStmt', 'DoStmt', 'CXXForRangeStmt') for n in g.nodes):
+        return None
+    obj = tt.t(rs[0]['obj'])
+    ga = strip_cast(tt.t(rs[0]['args'][0]))
+    if obj[0] != 'var' or obj[1] not in g.params:
+        return None
+    if not (ga[0] == 'bin' and ga[1] == '+' and strip_cast(ga[3]) == ('int', 1)):
+        return None
+    v = strip_cast(ga[2])
+    if v[0] != 'var' or v[1] not in g.params or v == obj:
+        return None
+    deps = g.region(rs[0]['i'])
+    if len(deps) != 1:
+        return None
+    dep = list(deps)[0]
+    t = tt.t(g.branch_atom(dep[0]))
+    if t[0] == 'bin' and t[1] == '>=' and strip_cast(t[2]) == v and t[3][0] == 'mcall' and t[3][1].endswith('::getSize') and \
+            t[3][2] == obj and dep[1] == 0:
+        return (g.params.index(obj[1]), g.params.index(v[1]))
+    return None
 
 
 # ------------------------------------------------------------------------------------------------
@@ -523,12 +589,14 @@ def rule_schema_binary(m):
     for f in io_functions(m, IO + 'swapBytes'):
         res.sites += 1
         tt = Terms(f)
-        rc = [n for n in f.nodes if n['k'] == 'CallExpr' and 'callee' in n and f.unit.decl(n['callee'])['tname'] == 'std::reverse_copy']
+        rc = [n for n in f.nodes if n['k'] == 'CallExpr' and 'callee' in n and
+              f.unit.decl(n['callee'])['tname'] in ('std::reverse_copy', 'std::reverse')]
         ok = len(rc) == 1
         if ok:
             a = [tt.t(x) for x in rc[0]['args']]
+            inplace = f.unit.decl(rc[0]['callee'])['tname'] == 'std::reverse'
             ok = a[0][0] == 'mcall' and a[0][1].endswith('::begin') and a[1][0] == 'mcall' and a[1][1].endswith('::end') and \
-                a[0][2] == a[1][2] and a[2][0] == 'mcall' and a[2][1].endswith('::begin') and a[2][2] != a[0][2]
+                a[0][2] == a[1][2] and (inplace or (a[2][0] == 'mcall' and a[2][1].endswith('::begin') and a[2][2] != a[0][2]))
             assigns = [tt.t(n['i']) for n in f.nodes if n['k'] == 'BinaryOperator' and n['op'] == '=' or
                        (n['k'] == 'CXXOperatorCallExpr' and 'callee' in n and f.unit.decl(n['callee']).get('op') == '=')]
             val = ('var', f.params[0])
@@ -564,7 +632,7 @@ def rule_schema_binary(m):
         why = None
         seq = []
         if len(loops) != 1:
-            why = 'the writer does not enumerate graph.edges() exactly once'
+            why = 'expected one loop over graph.edges() in the writer itself'
         else:
             e = ('var', loops[0]['loopvar'])
             body = set(f.descendants(loops[0]['body']))
@@ -823,7 +891,9 @@ def rule_schema_text(m):
             if len(recs) != 1:
                 why = why or 'expected one output statement per edge'
             else:
-                ops = recs[0][1]
+                from .rules_pair import Ctx as _Ctx
+                pctx = _Ctx(m, f)
+                ops = [pctx.unconst(o) for o in recs[0][1]]
 
                 def is_sep(t):
                     return (t[0] == 'str' and len(t[1]) >= 1 and all(ch in (delims or '') and ch not in '\n\r' for ch in t[1])) or \
@@ -858,22 +928,40 @@ def rule_schema_text(m):
         if len(incs) != 1 or len(rets) != 1:
             why = 'expected one counter increment and one return'
         else:
+            from .rules_pair import true_atoms
             okg = False
+            lookup_var = None
             for dep in f.region(incs[0]['i']):
-                t = tt.t(f.branch_atom(dep[0]))
-                if t[0] == 'bin' and t[1] == '==' and strip_cast(t[3]) == ('int', 0) and t[2][0] == 'mcall' and \
-                        t[2][1].endswith('::count') and t[2][3] == (s,) and dep[1] == 0:
-                    okg = True
-            rt = tt.t(f.children(rets[0]['i'])[0])
+                for t in true_atoms(tt.t(f.branch_atom(dep[0])), dep[1] == 0):
+                    if t[0] == 'bin' and t[1] == '==' and strip_cast(t[3]) == ('int', 0) and t[2][0] == 'mcall' and \
+                            t[2][1].endswith('::count') and t[2][3] == (s,):
+                        okg = True
+                    if t[0] == 'bin' and t[1] == '==':
+                        for it, other in ((t[2], t[3]), (t[3], t[2])):
+                            if other[0] == 'mcall' and other[1].endswith('::end') and it[0] == 'var':
+                                d0 = [tt.t(d[1]) for d in var_defs(f, it[1]) if d[1] >= 0]
+                                if d0 and d0[0][0] == 'mcall' and d0[0][1].endswith('::find') and d0[0][3] == (s,) and d0[0][2] == other[2]:
+                                    okg = True
+                                    lookup_var = it
+            rt = tt.t(f.children(rets[0]['i'])[0], resolve_refs=False)
+            stored = False
+            for n in f.nodes:
+                if n['k'] in ('BinaryOperator',) and n['op'] == '=':
+                    a = tt.t(n['i'])
+                    if a[2][0] == 'idx' and a[2][2] == s and incs[0]['i'] in f.descendants(n['i']):
+                        stored = True
+                if n['k'] == 'CXXMemberCallExpr' and 'callee' in n and f.unit.decl(n['callee'])['name'] in ('emplace', 'insert', 'try_emplace'):
+                    a = [tt.t(x) for x in n['args']]
+                    if a and a[0] == s and incs[0]['i'] in f.descendants(n['i']):
+                        stored = True
+            returned = (rt[0] == 'mcall' and rt[1].endswith('::at') and rt[3] == (s,)) or \
+                (lookup_var is not None and any(st == lookup_var for st in subterms(rt)) and 'second' in str(rt))
             if not okg:
                 why = 'the counter is not incremented exactly on first sight of a name'
-            elif not (rt[0] == 'mcall' and rt[1].endswith('::at') and rt[3] == (s,)):
+            elif not returned:
                 why = 'the stored index of the name is not what is returned'
-            else:
-                # the assignment stores the counter value under the name
-                asg = [tt.t(n['i']) for n in f.nodes if n['k'] in ('BinaryOperator',) and n['op'] == '=']
-                if not any(a[2][0] == 'idx' and a[2][2] == s for a in asg):
-                    why = 'the new index is not stored under the name'
+            elif not stored:
+                why = 'the new index is not stored under the name'
         if why:
             res.fail(Finding('F-IO.SCHEMA.text', f.display(), 'VertexCountMapper', f.where(), why))
         else:
@@ -961,7 +1049,7 @@ def rule_tokeniser_schema(m):
         if why is None:
             okn = False
             for n in f.nodes:
-                if n['k'] == 'IfStmt':
+                if n['k'] in ('IfStmt', 'ConditionalOperator'):
                     c = tt.t(n['cond'])
                     if c[0] == 'bin' and c[1] in ('==', '!=') and strip_cast(c[2]) == P[4] and 'npos' in str(c[3]):
                         okn = True
